@@ -238,7 +238,7 @@ class CFG:
                 if isinstance(c, ast.Name) and isinstance(c.ctx, (ast.Store, ast.Del)):
                     counts[c.id] = counts.get(c.id, 0) + 1
                 if isinstance(c, ast.Assign) and len(c.targets) == 1 and isinstance(c.targets[0], ast.Name) and \
-                        isinstance(c.value, (ast.BoolOp, ast.Compare)) or (isinstance(c, ast.Assign) and len(c.targets) == 1 and isinstance(c.targets[0], ast.Name)
+                        isinstance(c.value, (ast.BoolOp, ast.Compare, ast.Call)) or (isinstance(c, ast.Assign) and len(c.targets) == 1 and isinstance(c.targets[0], ast.Name)
                                                                           and isinstance(c.value, ast.UnaryOp) and isinstance(c.value.op, ast.Not)):
                     defs[c.targets[0].id] = c.value
                 walk(c)
